@@ -332,13 +332,61 @@ def case_copy_keys(rec, c):
     rec.trans()
     if not np.array_equal(D.data, ref_binop(np.array(eye), A0, '-')) or not np.array_equal(I.data, eye):
         rec.fail(c, 'I - A differs from the matrix-by-matrix result or modified I', tags('value', op='identity'))
+    # an IdentityMatrixArray carries the flag it was given and combines like any other MatrixArray: both operand orders x 3x3 flags
+    for fI, fA in itertools.product(FLAGS, FLAGS):
+        Ix = P.IdentityMatrixArray(length=L, rank=rank, space=getattr(P.Space, fI), types=types)
+        Ax = P.MatrixArray(length=L, rank=rank, data=A0.copy(), space=getattr(P.Space, fA), types=types)
+        if Ix.space != getattr(P.Space, fI):
+            rec.fail(c, 'IdentityMatrixArray(space=%s) is flagged %s' % (fI, Ix.space), tags('space', op='identity'))
+            continue
+        for order in ('I-A', 'A-I', 'I.dot(A)', 'A*I'):
+            rec.trans()
+            try:
+                R = {'I-A': lambda: Ix - Ax, 'A-I': lambda: Ax - Ix, 'I.dot(A)': lambda: Ix.dot(Ax), 'A*I': lambda: Ax * Ix}[order]()
+                raised = None
+            except Exception as e:
+                raised = e
+            if compatible(fI, fA):
+                if raised is not None:
+                    rec.fail(c, '%s with an Identity flagged %s and an array flagged %s was refused (%s)' % (order, fI, fA, type(raised).__name__),
+                             tags('space', op='identity'))
+                else:
+                    want = {'I-A': eye - A0, 'A-I': A0 - eye, 'I.dot(A)': A0, 'A*I': A0 * eye}[order]
+                    if not float(np.max(np.abs(R.data - want))) <= 1e-12 * float(np.max(np.abs(A0))):
+                        rec.fail(c, '%s (Identity %s, array %s) differs from the matrix-by-matrix result' % (order, fI, fA), tags('value', op='identity'))
+            elif raised is None:
+                rec.fail(c, '%s between an Identity flagged %s and an array flagged %s was not refused' % (order, fI, fA), tags('space', op='identity'))
+    # a second array with the same names in another order is alive: name-keyed access of each uses its own order
+    if rank >= 2:
+        M1 = P.MatrixArray(length=L, rank=rank, data=gen(rank, L, 0.4), types=list(types))
+        M2 = P.MatrixArray(length=L, rank=rank, data=gen(rank, L, 0.7), types=list(types[::-1]))
+        b1, b2 = M1.data.copy(), M2.data.copy()
+        rec.trans()
+        ok = True
+        for a, b in itertools.product(range(rank), repeat=2):
+            ok = ok and np.array_equal(M1[types[a], types[b]], b1[:, a, b]) and np.array_equal(M2[types[a], types[b]], b2[:, rank - 1 - a, rank - 1 - b])
+        v = np.arange(L, dtype=float) + 0.25
+        M1[types[0], types[1]] = v
+        e1 = b1.copy()
+        e1[:, 0, 1] = v
+        e1[:, 1, 0] = v
+        M2[types[0], types[1]] = v + 1
+        e2 = b2.copy()
+        e2[:, rank - 1, rank - 2] = v + 1
+        e2[:, rank - 2, rank - 1] = v + 1
+        if not ok or not np.array_equal(M1.data, e1) or not np.array_equal(M2.data, e2):
+            rec.fail(c, 'two MatrixArrays with the same type names in different order: name-keyed access of one uses the order of the other',
+                     tags('value', op='typemap'))
     rec.trace()
 
 
 # E2 ------------------------------------------------------------------------
 INPLACE_OPS = ['+=s', '-=s', '*=s', '/=s', '+=M', '-=M', '*=M', '/=M', '@=M', 'inv',
                'set', 'setM',            # writes through into the existing buffer (pair by type names / one matrix)
-               'inv?', 'copy?']          # out-of-place observers: must see the *current* contents and leave A alone
+               'inv?', 'copy?',          # out-of-place observers: must see the *current* contents and leave A alone
+               'aug', 'rev',             # A[t0,tN] += s  /  A[t0,tN] = A[t0,tN][::-1]  (augmented / self-aliasing assignment by type names)
+               'dot?', 'iter?',          # A.dot(M) out of place (result kept and re-examined later) / iterpairs views are the current data
+               'flip']                   # Domain transform of A to the other space (reference: 1-D transform pair by pair)
 
 
 def case_seq(rec, c):
@@ -351,6 +399,8 @@ def case_seq(rec, c):
     s = 1.25
     rec.state()
     err_scale = 1.0
+    held = []                                      # results handed out earlier: (object, snapshot)
+    cur_space = [P.Space.Fourier]
     for n, op in enumerate(c['ops']):
         if op == 'inv':
             # the property is about well-conditioned data: prune sequences that reach an ill-conditioned array
@@ -377,6 +427,61 @@ def case_seq(rec, c):
             A.setMatrix(L - 1, mat)
             ref = ref.copy()
             ref[L - 1] = mat
+        elif op == 'aug':
+            A[A.types[0], A.types[-1]] += 1.5 + n
+            ref = ref.copy()
+            ref[:, 0, rank - 1] += 1.5 + n           # read (t0,tN), add, write back to (t0,tN) and its mirror
+            ref[:, rank - 1, 0] = ref[:, 0, rank - 1]
+        elif op == 'rev':
+            A[A.types[0], A.types[-1]] = A[A.types[0], A.types[-1]][::-1]
+            ref = ref.copy()
+            col = ref[::-1, 0, rank - 1].copy()
+            ref[:, 0, rank - 1] = col
+            ref[:, rank - 1, 0] = col
+        elif op == 'dot?':
+            R = A.dot(M)
+            want = ref_dot(ref, M0)
+            scw = float(np.max(np.abs(want)))
+            if R is A or np.shares_memory(R.data, A.data) or np.shares_memory(R.data, M.data) or any(np.shares_memory(R.data, o.data) for o, _ in held):
+                rec.fail({'kind': 'seq', 'rank': rank, 'length': L, 'ops': c['ops'][:n + 1]},
+                         'sequence %s: the result of out-of-place dot shares memory with an operand or with an earlier result' % (c['ops'][:n + 1],),
+                         tags('alias', op=op, seq=True))
+                return
+            if not float(np.max(np.abs(R.data - want))) <= 256 * np.finfo(float).eps * rank * min(err_scale, 1e8) * scw:
+                rec.fail({'kind': 'seq', 'rank': rank, 'length': L, 'ops': c['ops'][:n + 1]},
+                         'sequence %s: A.dot(M) is not the matrix-by-matrix product of the current contents' % (c['ops'][:n + 1],), tags('value', op=op, seq=True))
+                return
+            held.append((R, R.data.copy()))
+        elif op == 'iter?':
+            for (i, j), (ta, tb), view in A.iterpairs():
+                if not np.array_equal(view, A.data[:, i, j]) or not np.shares_memory(view, A.data):
+                    rec.fail({'kind': 'seq', 'rank': rank, 'length': L, 'ops': c['ops'][:n + 1]},
+                             'sequence %s: iterpairs yields something else than the current pair function (%d,%d)' % (c['ops'][:n + 1], i, j),
+                             tags('value', op=op, seq=True))
+                    return
+        elif op == 'flip':
+            if not (np.array_equal(ref, np.transpose(ref, (0, 2, 1)))):
+                rec.count('disabled')              # the Domain transforms are defined on symmetric arrays (upper triangle is mirrored)
+                return
+            dom = P.Domain(length=L, dr=0.1)
+            if len(dom.r) != L:
+                rec.count('skipped_preconditions')
+                return
+            tofourier = (A.space == P.Space.Real)
+            one = dom.to_fourier if tofourier else dom.to_real
+            (dom.MatrixArray_to_fourier if tofourier else dom.MatrixArray_to_real)(A)
+            new = np.empty_like(ref)
+            for i in range(rank):
+                for j in range(rank):
+                    new[:, i, j] = one(ref[:, i, j])
+            ref = new
+            expect_space = P.Space.Fourier if tofourier else P.Space.Real
+            if A.space != expect_space:
+                rec.fail({'kind': 'seq', 'rank': rank, 'length': L, 'ops': c['ops'][:n + 1]},
+                         'sequence %s: transform did not set the space flag' % (c['ops'][:n + 1],), tags('space', op=op, seq=True))
+                return
+            M.space = A.space                      # the right operand follows (it only has to be compatible)
+            cur_space[0] = A.space
         elif op == 'inv?':
             try:
                 cnd = max(float(np.linalg.cond(ref[l])) for l in range(L))
@@ -427,9 +532,14 @@ def case_seq(rec, c):
             rec.fail({'kind': 'seq', 'rank': rank, 'length': L, 'ops': c['ops'][:n + 1]},
                      'in-place sequence %s modified the right operand' % (c['ops'][:n + 1],), tags('alias', op=op, seq=True))
             return
-        if A.space != P.Space.Fourier:
+        if A.space != cur_space[0]:
             rec.fail(c, 'in-place sequence changed the space flag', tags('space', op=op, seq=True))
             return
+        for o, snap in held:
+            if not np.array_equal(o.data, snap):
+                rec.fail({'kind': 'seq', 'rank': rank, 'length': L, 'ops': c['ops'][:n + 1]},
+                         'sequence %s: a MatrixArray returned by an earlier out-of-place dot changed afterwards' % (c['ops'][:n + 1],), tags('alias', op=op, seq=True))
+                return
     rec.trace()
     rec.outcome(core.digest([rank, L, c['ops'], A.data.ravel()[:5]], 7))
 
